@@ -225,12 +225,24 @@ def _execute(case, prefix, seed):
     viol, obs = [], {}
     ms.bound_pending(g)
     try:
-        for sh, st in enumerate(assign):
-            ms.write_share(g, si, prep["server"][sh], sh, build(prep, sh, st))
+        place = case.get("place")
+        if place:
+            # "spread": share number i sits on the server at position place[i] of the permuted server
+            # list (S > 2k servers: a MODE_READ servermap update can stop before it has seen them all)
+            perm = [g.ids.index(s_.get_serverid()) for s_ in g.clients[0].storage_broker.get_servers_for_psi(si)]
+            for sv, sh_ in [(sv_, sh_) for (sv_, p_) in g.share_files() for sh_ in [p_.rsplit("/", 1)[1]] if sh_.isdigit()]:
+                ms.write_share(g, si, sv, int(sh_), None)
+            for sh, st in enumerate(assign):
+                blob = build(prep, sh, st)
+                if blob is not None:
+                    ms.write_share(g, si, perm[place[sh]], sh, ms.rehome(blob, perm[place[sh]], prep["cap_w"]))
+        else:
+            for sh, st in enumerate(assign):
+                ms.write_share(g, si, prep["server"][sh], sh, build(prep, sh, st))
         if extra:
             ms.write_share(g, si, prep["spare"][0], 0, ms.rehome(prep["blob"][extra][0], prep["spare"][0], prep["cap_w"]))
         t = truth(prep, assign, verify, extra)
-        desc = "%s 2-of-%d slots=%r%s verify=%r %s%s" % (fmt, n, assign, " + a second copy of share 0 in state %s on a %dth server" % (extra, S) if extra else "", verify, mode, " (CPU-pool results delivered in a later reactor turn, as in production)" if case.get("cpu") == "async" else "")
+        desc = "%s 2-of-%d slots=%r%s%s verify=%r %s%s" % (fmt, n, assign, " at positions %r of the permuted list of %d servers" % (place, S) if place else "", " + a second copy of share 0 in state %s on a %dth server" % (extra, S) if extra else "", verify, mode, " (CPU-pool results delivered in a later reactor turn, as in production)" if case.get("cpu") == "async" else "")
         v3_is_best = bool(t["bests"]) and all(b == prep["vid"]["v3"] for b in t["bests"])
         best_hidden = sorted(sh for sh, st in enumerate(assign) if st in HIDDEN and st != "badprivkey") if v3_is_best else []
         node = g.clients[0].create_node_from_uri(prep["cap_w"])
@@ -397,6 +409,16 @@ def cases_for(fmt, n, states, modes, verifies=(False, True), cpu="sync", extras=
     return out
 
 
+def spread_cases(fmt, n, S, states, modes, verifies):
+    out = []
+    for place in itertools.combinations(range(S), n):
+        for combo in itertools.product(states, repeat=n):
+            for verify in verifies:
+                for mode in modes:
+                    out.append({"fmt": fmt, "n": n, "S": S, "assign": list(combo), "place": list(place), "verify": verify, "mode": mode, "cpu": "sync"})
+    return out
+
+
 def replay(case):
     trace, viol, obs = execute(case["case"], case["prefix"], boot.SEED)
     return viol
@@ -435,6 +457,13 @@ def run(tier, seed):
                 cases += [dict(c, batch=True) for c in cs[::2]]
                 desc.append("  + %d of them with several answers delivered per reactor turn" % len(cs[::2]))
             desc.append("%s 2-of-%d: %d^%d layouts x verify{F,T} x %s = %d at d<=%d" % (fmt, n, len(states), n, "/".join(modes), len(cs), d))
+        if d == 0:
+            # spread placements on 7 servers: versions v3 / v2 per share, every choice of 4 positions
+            for fmt in (("SDMF",) if tier == "quick" else ("SDMF", "MDMF")):
+                prepare(fmt, 4, seed, 7)
+                sp = spread_cases(fmt, 4, 7, ["v3", "v2"], ("noforce", "car") if tier == "quick" else ("noforce", "force", "car"), (False,) if tier == "quick" else (False, True))
+                cases += sp
+                desc.append("%s 2-of-4 on 7 servers: C(7,4) placements over the permuted list x {v3,v2}^4 x modes = %d" % (fmt, len(sp)))
         res.merge(common.pmap(chunk, cases, (seed, d), chunks=max(1, min(len(cases), common.NWORKERS * 8))))
     execs = res.counts.get("executions", 0)
     cov = {
